@@ -61,7 +61,7 @@ def generate(rng, tier):
                     steps[pos + 1]['sep'] = 'none'
             else:
                 for st in steps:
-                    if st.get('want', '') and st['want'].startswith('tb') and st['form'] not in ('tq', 'tqprint'):
+                    if st.get('want', '') and st['want'].startswith('tb') and st['form'] not in ('tq', 'tqprint', 'bgtask'):
                         st['inline'] = fl
                         st['inline_at'] = rng.choice(['first', 'last'])
         gen.fix_chunk_starts(steps)
